@@ -73,12 +73,13 @@ Theorem C13_spsa_refines : forall thr v maxfev h,
 Proof. exact spsa_refines. Qed.
 Print Assumptions C13_spsa_refines.
 
-(* a callback sequence whose second part is recognised as a new optimiser run is answered run by run *)
+(* a callback sequence whose second part is recognised as a new optimiser run (the previous callback was answered
+   "terminate" by the change criterion, or the evaluation counter does not increase) is answered run by run *)
 Theorem C13_spsa_segments : forall thr v maxfev h1 h2,
   match h2 with
   | [] => True
   | i :: _ => done (spsa_state_after repaired thr v maxfev spsa_init h1) = true
-              \/ (si_n i < nfe (spsa_state_after repaired thr v maxfev spsa_init h1))%Z
+              \/ (si_n i <= nfe (spsa_state_after repaired thr v maxfev spsa_init h1))%Z
   end ->
   spsa_run repaired thr v maxfev spsa_init (h1 ++ h2)
   = spsa_run repaired thr v maxfev spsa_init h1 ++ spsa_run repaired thr v maxfev spsa_init h2.
@@ -99,9 +100,11 @@ Theorem C13_spsa_done_iff : forall thr v maxfev h i,
 Proof. exact spsa_done_iff. Qed.
 Print Assumptions C13_spsa_done_iff.
 
+(* any number of runs, any flags; [recognised_start fl s h2]: h2 is empty, or s is done, or the first counter of h2
+   hits the boundary test of the variant ([boundary_hit fl]: <= stored counter; before fix 05ee1f9: <) *)
 Theorem C13_spsa_segments_list : forall fl thr v maxfev (runs : list (list spsa_in)),
   (forall j, (0 < j < length runs)%nat ->
-     recognised_start (spsa_state_after fl thr v maxfev spsa_init (concat (firstn j runs))) (nth j runs [])) ->
+     recognised_start fl (spsa_state_after fl thr v maxfev spsa_init (concat (firstn j runs))) (nth j runs [])) ->
   spsa_run fl thr v maxfev spsa_init (concat runs) = concat (map (spsa_run fl thr v maxfev spsa_init) runs).
 Proof. exact spsa_segments_list. Qed.
 Print Assumptions C13_spsa_segments_list.
@@ -119,6 +122,72 @@ Example C13_spsa_segments_example :
   /\ spsa_run repaired (1 # 2) 0 None spsa_init (h1 ++ h2) = [Ok false; Ok true; Ok false; Ok false; Ok true].
 Proof. vm_compute. repeat split. Qed.
 Print Assumptions C13_spsa_segments_example.
+
+(* Which optimiser behaviour the implicit reset covers.  Within one run of qiskit_algorithms' SPSA the evaluation
+   counter strictly increases from callback to callback (every iteration evaluates the objective at least twice), and
+   every run of one optimiser configuration issues its first callback with the same counter.  Hence the first counter
+   of a new run never exceeds the last counter of the previous run, and "counter did not increase" recognises every
+   such run start: no premise about checker states is needed (C13_spsa_segments_runs, C13_spsa_first_count_constant).
+   Before fix 05ee1f9 the reset required a strictly smaller counter, which misses a new run starting with the same
+   counter as the last callback of a single-callback run (C13_spsa_run_boundary_refuted).
+   NOT recognisable: a new run whose first counter is larger than the last counter of the previous run that was not
+   ended by the change criterion (for example optimisers with different settings sharing one checker): it is
+   indistinguishable from a continuation (C13_spsa_unrecognisable_example); that case is outside the property. *)
+Theorem C13_spsa_segments_runs : forall thr v maxfev runs,
+  Forall run_wf runs ->
+  (forall j r r', nth_error runs j = Some r -> nth_error runs (S j) = Some r' ->
+     forall a b, first_n r' = Some a -> last_n r = Some b -> (a <= b)%Z) ->
+  spsa_run repaired thr v maxfev spsa_init (concat runs)
+  = concat (map (spsa_run repaired thr v maxfev spsa_init) runs).
+Proof. exact spsa_segments_runs. Qed.
+Print Assumptions C13_spsa_segments_runs.
+
+Theorem C13_spsa_first_count_constant : forall thr v maxfev runs c,
+  Forall run_wf runs ->
+  Forall (fun r => option_map si_n (hd_error r) = Some c) runs ->
+  spsa_run repaired thr v maxfev spsa_init (concat runs)
+  = concat (map (spsa_run repaired thr v maxfev spsa_init) runs).
+Proof. exact spsa_first_count_constant. Qed.
+Print Assumptions C13_spsa_first_count_constant.
+
+(* hypotheses satisfiable: three runs all starting at counter 2, the second a single callback *)
+Theorem C13_spsa_first_count_example :
+  Forall run_wf example_runs
+  /\ Forall (fun r => option_map si_n (hd_error r) = Some 2%Z) example_runs
+  /\ adjacent_runs_ok example_runs
+  /\ spsa_run repaired (1 # 2) 0 None spsa_init (concat example_runs)
+     = [Ok false; Ok true; Ok false; Ok false; Ok false; Ok true]
+  /\ concat (map (spsa_run repaired (1 # 2) 0 None spsa_init) example_runs)
+     = [Ok false; Ok true; Ok false; Ok false; Ok false; Ok true].
+Proof. exact spsa_first_count_example. Qed.
+Print Assumptions C13_spsa_first_count_example.
+
+Theorem C13_spsa_run_boundary_refuted :
+  exists thr v h1 h2,
+    (exists n f1 f2, h1 = [mk_in n f1] /\ h2 = [mk_in n f2])
+    /\ spsa_run legacy_run_boundary thr v None spsa_init (h1 ++ h2)
+       <> spsa_run legacy_run_boundary thr v None spsa_init h1 ++ spsa_run legacy_run_boundary thr v None spsa_init h2
+    /\ spsa_run repaired thr v None spsa_init (h1 ++ h2)
+       = spsa_run repaired thr v None spsa_init h1 ++ spsa_run repaired thr v None spsa_init h2.
+Proof. exact spsa_run_boundary_refuted. Qed.
+Print Assumptions C13_spsa_run_boundary_refuted.
+
+Theorem C13_spsa_run_boundary_answers :
+  spsa_run legacy_run_boundary (1 # 2) 0 None spsa_init ([mk_in 2 5] ++ [mk_in 2 6]) = [Ok false; Ok true]
+  /\ spsa_run legacy_run_boundary (1 # 2) 0 None spsa_init [mk_in 2 5]
+     ++ spsa_run legacy_run_boundary (1 # 2) 0 None spsa_init [mk_in 2 6] = [Ok false; Ok false]
+  /\ spsa_run repaired (1 # 2) 0 None spsa_init ([mk_in 2 5] ++ [mk_in 2 6]) = [Ok false; Ok false].
+Proof. exact spsa_run_boundary_answers. Qed.
+Print Assumptions C13_spsa_run_boundary_answers.
+
+Theorem C13_spsa_unrecognisable_example :
+  spsa_run repaired (1 # 2) 0 None spsa_init ([mk_in 2 5] ++ [mk_in 3 6]) = [Ok false; Ok true]
+  /\ spsa_run repaired (1 # 2) 0 None spsa_init [mk_in 2 5] ++ spsa_run repaired (1 # 2) 0 None spsa_init [mk_in 3 6]
+     = [Ok false; Ok false]
+  /\ spsa_run repaired (1 # 2) 0 None spsa_init ([mk_in 2 5] ++ [mk_in 3 6])
+     <> spsa_run repaired (1 # 2) 0 None spsa_init [mk_in 2 5] ++ spsa_run repaired (1 # 2) 0 None spsa_init [mk_in 3 6].
+Proof. exact spsa_unrecognisable_example. Qed.
+Print Assumptions C13_spsa_unrecognisable_example.
 
 Theorem C13_spsa_best_value : forall thr v maxfev h seg lastn closed,
   spsa_seg_after thr v maxfev [] 0 false h = (seg, lastn, closed) ->
